@@ -374,6 +374,49 @@ def thermal_properties_are_sane(self):
     return True
 
 
+def shortest_pairs_are_images(self):
+    """Light always-on part of C05: every stored vector is a periodic image of the pair separation, the stored vectors of a pair
+    have equal length within the tolerance and are distinct, multiplicities lie in 1..27. (Completeness is decided by C05's brute force.)"""
+    _bump("ShortestPairs.__init__")
+    try:
+        sv, mu = self._smallest_vectors, self._multiplicities
+        xs, xp = np.asarray(self._supercell_pos, float), np.asarray(self._primitive_pos, float)
+        L = np.asarray(self._supercell_bases, float)
+        dense = mu.ndim == 3
+        ns, npr = len(xs), len(xp)
+        if ns * npr > 4000:
+            idx = np.random.default_rng(7).choice(ns * npr, 4000, replace=False)
+        else:
+            idx = np.arange(ns * npr)
+        tol = max(self._symprec, 1e-8)
+        for k in idx:
+            i, j = divmod(int(k), npr)
+            if dense:
+                m, adr = int(mu[i, j, 0]), int(mu[i, j, 1])
+                v = sv[adr:adr + m]
+            else:
+                m = int(mu[i, j])
+                v = sv[i, j, :m]
+            if not 1 <= m <= 27:
+                _record("svecs_contract", "multiplicity %d outside 1..27 for pair (%d,%d)" % (m, i, j))
+                break
+            d = v - (xs[i] - xp[j])
+            if np.abs(d - np.rint(d)).max() > 1e-6:
+                _record("svecs_contract", "stored vector of pair (%d,%d) is not a periodic image of the separation" % (i, j))
+                break
+            ln = np.linalg.norm(v @ L, axis=1)
+            if ln.max() - ln.min() > 2 * tol:
+                _record("svecs_contract", "stored vectors of pair (%d,%d) differ in length by %.3e" % (i, j, ln.max() - ln.min()))
+                break
+            if m > 1 and min(np.linalg.norm(v[a] - v[b]) for a in range(m) for b in range(a + 1, m)) < 1e-8:
+                _record("svecs_contract", "duplicate stored vector for pair (%d,%d)" % (i, j))
+                break
+    except Exception as e:
+        _bump("oracle_error.ShortestPairs")
+        _COUNT["oracle_error_last"] = repr(e)[:200]
+    return True
+
+
 class _Broken(Exception):
     pass
 
@@ -389,6 +432,7 @@ def install():
 
     cells.Supercell.__init__ = icontract.ensure(supercell_is_exact_tiling, error=_Broken)(cells.Supercell.__init__)
     cells.Primitive.__init__ = icontract.ensure(primitive_tiles_supercell, error=_Broken)(cells.Primitive.__init__)
+    cells.ShortestPairs.__init__ = icontract.ensure(shortest_pairs_are_images, error=_Broken)(cells.ShortestPairs.__init__)
     try:
         from phonopy.harmonic import dynmat_to_fc
 
